@@ -269,8 +269,11 @@ def run(ctx, facts):
         ctx.ok("OPEN", RELOAD, "read(true)", hirq.loc(rn))
     else:
         ctx.violation("OPEN", RELOAD, "open mode", hirq.loc(rn), "the reload file is opened with %s" % rch)
-    dj = [nf.nf(e) for e in def_exprs(dfn, dpath)] if re.match(r"^\w+$", dpath) else [dpath]
-    rj = [nf.nf(e) for e in def_exprs(rfn, rpath)] if re.match(r"^\w+$", rpath) else [rpath]
+    from ..rulelib import resolver_of
+    Rd, Rr = resolver_of(dfn), resolver_of(rfn)
+    # resolved: a path built by a shared private helper (`json_filepath(dirpath)`, inlined) is the helper's expression over the argument
+    dj = [nf.nf(e, res=Rd) for e in def_exprs(dfn, dpath)] if re.match(r"^\w+$", dpath) else [nf.nf(dn["args"][0], res=Rd)]
+    rj = [nf.nf(e, res=Rr) for e in def_exprs(rfn, rpath)] if re.match(r"^\w+$", rpath) else [nf.nf(rn["args"][0], res=Rr)]
     dd_, rd_ = hirq.show_pat(dfn["params"][1]["pat"]), hirq.show_pat(rfn["params"][0]["pat"])
     djn = [x.replace(dd_ + ".join(", "DIR.join(", 1) for x in dj]
     rjn = [x.replace(rd_ + ".join(", "DIR.join(", 1) for x in rj]
